@@ -607,7 +607,10 @@ def design_check(o, tier, seed):
     return hists, join
 
 
-def light_stage(o, seed, only=None):
+C10_GUARDS = {"VAPIVerifies", "ExchangeVerifies"}
+
+
+def light_stage(o, seed, only=None, pick=None, controls=None):
     """The whole-system stage as part of a property's QUICK tier: the six fixed fault profiles (Byzantine partial
     signatures through the in-memory exchange and through real libp2p, diverging candidates, retries, late / stopped
     node) as real app.Run clusters, trace-validated; no design check (./check --grow workflow and the thorough tier
@@ -616,10 +619,13 @@ def light_stage(o, seed, only=None):
     t0 = time.time()
     ONLY_GUARDS = only
     try:
-        ok = conformance(o, fixed_profiles(seed), "wf")
+        profs = [p for p in fixed_profiles(seed) if pick is None or pick(p)]
+        ok = conformance(o, profs, "wf")
         if not o.violations:
             ms = mutators()
-            if only is not None:    # the controls that break the property's own guards
+            if controls is not None:
+                ms = [m for m in ms if m[0] in controls]
+            elif only is not None:    # the controls that break the property's own guards
                 ms = [m for m in ms if m[0] in ("a node broadcasts another root", "invalid aggregate broadcast",
                                                 "invalid aggregate stored")]
             else:
